@@ -361,3 +361,23 @@ def c19(c):
     c.std([dict(src='c19_state.cpp', build='asan', shards={'quick': 5, 'thorough': 5}, extra_inc=SHIM, libs=['-pthread'])])
     for k in ('first_states_checked', 'state_transitions_checked', 'coordinates_predicted', 'channels_predicted', 'runs_serial', 'runs_resumed', 'runs_mpi'):
         c.require(k)
+
+
+@prop('C01',
+      rule="case = one iteration of hep::plain_iteration / vegas_iteration / multi_channel_iteration driven by a tensor midpoint lattice (scripted "
+           "engine; <= 40000 points): PLAIN and VEGAS in 1..3 dims with bins {2,3,4,5,8,16,128} and lattice bins*m per dimension so that cells never "
+           "straddle a bin, on uniform grids, random user grids, user grids with very narrow and zero-width bins, and grids the library itself "
+           "produced by 1..8 adaptive iterations (alpha in [0,3]) on a peaked integrand; integrands multilinear prod(a_i+c_i x_i) or "
+           "bin-restricted linear (tests every bin's weight separately): estimate == closed-form integral. Multi-channel: 1..6 channels with "
+           "piecewise-constant densities on 2 or 4 dyadic cells per dimension, optional position-dependent common jacobian, lattice d+1 dims; "
+           "weights dyadic (estimate == integral), arbitrary, with zeros, or produced by the library from user weights and a minimum weight: "
+           "estimate == sum_i (n_i/N) I_i with n_i the observed channel hits and I_i in closed form (identity sum_i alpha_i I_i = integral f "
+           "self-checked); per-call weight == 1/sum_j alpha_j p_j. non-trivial = non-uniform grid / any multi-channel case; distinct = case hash.",
+      assumptions=["tolerance 256*(d+2)*eps_T*|integral| (midpoints (j+1/2)/M are rounded to T for non-dyadic M)",
+                   "integrands outside the exactly-integrable class and grids not reached by the sampled histories are out of reach",
+                   "multi-channel weights are passed normalised, as the checkpoint always provides them"])
+def c01(c):
+    c.std([dict(src='c01_lattice.cpp', build='asan', shards={'quick': 5, 'thorough': 5}),
+           dict(src='c01_lattice.cpp', build='clang', shards={'quick': 1, 'thorough': 5}, tiers=('thorough',))])
+    for k in ('plain_lattices', 'vegas_lattices', 'mc_lattices', 'mc_lattices_exact_integral', 'mc_weights_checked_per_call', 'lattice_points'):
+        c.require(k)
